@@ -27,9 +27,10 @@ type CaseC05 struct {
 	Enc    int                    `json:"enc"` // 0 Map.Xml 1 Map.XmlIndent 2 MapSeq.Xml 3 MapSeq.XmlIndent
 	Doc    *XElem                 `json:"doc,omitempty"`
 	Calls  []SwitchCall           `json:"calls,omitempty"`
-	Value  map[string]interface{} `json:"value,omitempty"` // clause e: any JSON-shaped Map, any root shape
-	Root   string                 `json:"root,omitempty"`  // clause e: explicit root tag ("" = none)
-	Skip   int                    `json:"skip,omitempty"`  // clause b: a skip-tag function is set (1: true for every key, 2: for keys of even length); it only concerns casting
+	Value  map[string]interface{} `json:"value,omitempty"`          // clause e: any JSON-shaped Map, any root shape
+	Root   string                 `json:"root,omitempty"`           // clause e: explicit root tag ("" = none)
+	Sloppy bool                   `json:"sloppy_decoder,omitempty"` // clause c: mxj.CustomDecoder is a non-strict decoder (an option for READING sloppy XML)
+	Skip   int                    `json:"skip,omitempty"`           // clause b: a skip-tag function is set (1: true for every key, 2: for keys of even length); it only concerns casting
 }
 
 func init() { register("C05", checkC05) }
@@ -63,6 +64,9 @@ func genC05(t *rapid.T) CaseC05 {
 	switch c.Clause {
 	case "a", "c":
 		c.Text, c.Attr, c.Mixed = genEscStr(t, "text"), genEscStr(t, "attr"), genEscStr(t, "mixed")
+		if c.Clause == "c" {
+			c.Sloppy = rapid.IntRange(0, 3).Draw(t, "sloppy") == 0
+		}
 		if c.Clause == "c" && rapid.Bool().Draw(t, "mild") {
 			// strings that are valid XML content when written unescaped
 			c.Text, c.Attr, c.Mixed = genMildStr(t, "text"), genMildStr(t, "attr"), genMildStr(t, "mixed")
@@ -70,6 +74,7 @@ func genC05(t *rapid.T) CaseC05 {
 				c.Text += genEscStr(t, "bad")
 			}
 		}
+	case "never":
 	case "b":
 		g := XGen{Opts: Opts{AttrPrefix: "-", KeyPrefix: "#", DecEscape: true}, MixedText: c.Enc < 2, Namespaces: c.Enc >= 2, TextGen: genEscStr}
 		c.Doc = g.Elem(t, rapid.IntRange(1, 3).Draw(t, "depth"))
@@ -191,6 +196,10 @@ func checkC05(c CaseC05, info *Info) *Failure {
 		}
 		info.NonTrivial(hasSpecial(c.Text) || hasSpecial(c.Attr) || hasSpecial(c.Mixed))
 	case "c":
+		if c.Sloppy {
+			mxj.CustomDecoder = &xml.Decoder{Strict: false, AutoClose: xml.HTMLAutoClose, Entity: xml.HTMLEntity}
+			info.Class("c: non-strict CustomDecoder set")
+		}
 		x0, err0 := c.encode() // escaping off, check off
 		mxj.XmlCheckIsValid(true)
 		x, err := c.encode()
